@@ -29,6 +29,8 @@ pub mod slab {
     impl<T> Slab<T> {
         /// ASSUMED view: a finite map from keys to values
         pub uninterp spec fn view(&self) -> Map<usize, T>;
+        /// ASSUMED (slab documentation of `vacant_key`): "the key of the vacant entry which will be used for the next insertion"
+        pub uninterp spec fn next_key(&self) -> usize;
         #[verifier::external_body] pub fn new() -> (r: Slab<T>) ensures r@ == Map::<usize, T>::empty(), { unimplemented!() }
         #[verifier::external_body] pub fn get(&self, key: usize) -> (r: Option<&T>)
             ensures self@.dom().contains(key) ==> r == Some(&self@[key]), !self@.dom().contains(key) ==> r is None,
@@ -39,9 +41,9 @@ pub mod slab {
             ensures r == old(self)@[key], final(self)@ == old(self)@.remove(key), w_slab_removed(r),
         { unimplemented!() }
         #[verifier::external_body] pub fn insert(&mut self, val: T) -> (r: usize)
-            ensures !old(self)@.dom().contains(r), final(self)@ == old(self)@.insert(r, val),
+            ensures !old(self)@.dom().contains(r), final(self)@ == old(self)@.insert(r, val), r == old(self).next_key(),
         { unimplemented!() }
-        #[verifier::external_body] pub fn vacant_key(&self) -> (r: usize) ensures !self@.dom().contains(r), { unimplemented!() }
+        #[verifier::external_body] pub fn vacant_key(&self) -> (r: usize) ensures !self@.dom().contains(r), r == self.next_key(), { unimplemented!() }
     }
 }
 pub mod async_task {
@@ -52,5 +54,17 @@ pub mod async_task {
         #[verifier::external_body] pub fn metadata(&self) -> (r: &M) { unimplemented!() }
         /// ASSUMED: polls the task once (user code); no effect contracts can see
         #[verifier::external_body] pub fn run(self) -> (r: bool) { unimplemented!() }
+        /// the waker of the task this runnable belongs to
+        pub uninterp spec fn spec_waker(&self) -> std::task::Waker;
+        #[verifier::external_body] pub fn waker(&self) -> (r: std::task::Waker) ensures r == self.spec_waker(), { unimplemented!() }
+        /// ASSUMED: hands the runnable to the schedule function it was spawned with (here: futures::Sender::send); witness only
+        #[verifier::external_body] pub fn schedule(self) ensures w_scheduled(self), { unimplemented!() }
+    }
+    /// `schedule()` has been called on this runnable
+    pub uninterp spec fn w_scheduled<M>(r: Runnable<M>) -> bool;
+    #[verifier::external_body] #[verifier::reject_recursive_types(T)] #[verifier::reject_recursive_types(M)] #[derive(Debug)]
+    pub struct Task<T, M> { _p: std::marker::PhantomData<(T, M)> }
+    impl<T, M> Task<T, M> {
+        #[verifier::external_body] pub fn detach(self) { unimplemented!() }
     }
 }
